@@ -64,7 +64,8 @@ with open('/verif/seeded/RESULTS.md', 'w') as fp:
         fp.write('| %s | %s | %s | %s | %s | %s |\n' % (
             name, r.get('confirmed'), 'caught' if fr else 'no',
             r.get('check') if r.get('detected')
-            else 'NOT caught', r.get('summary', '')[:80],
+            else (r['caught_by_other'] + ' (not by its own check)'
+                  if r.get('caught_by_other') else 'NOT caught'), r.get('summary', '')[:80],
             r.get('note', r.get('what', ''))[:160].replace('|', '/')))
 print(len(res), 'entries;', sum(1 for r in res.values() if r.get('detected')),
       'caught')
